@@ -889,6 +889,9 @@ pub struct RaftLogManager {
     pre_ready_snapshot_pointer: Option<LogRecordDto>,
     last_ready_snapshot_pointer: Option<LogRecordDto>,
     is_init: bool,
+    /// a new log file was entered into the catalogue with a fire-and-forget SaveLogs; the next write is only
+    /// acknowledged once the index actor has handled it (entries in a file the catalogue does not know are lost)
+    catalogue_save_pending: bool,
     #[cfg(feature = "debug")]
     discard_times: u64,
 }
@@ -898,6 +901,7 @@ impl RaftLogManager {
         Self {
             base_path,
             current_log_actor: None,
+            catalogue_save_pending: false,
             logs: Vec::new(),
             index_info: None,
             last_applied_log: 0,
@@ -1091,6 +1095,15 @@ impl RaftLogManager {
         rlist
     }
 
+    fn take_catalogue_barrier(&mut self) -> Option<Addr<RaftIndexManager>> {
+        if self.catalogue_save_pending {
+            self.catalogue_save_pending = false;
+            self.index_manager.clone()
+        } else {
+            None
+        }
+    }
+
     fn switch_new_log(&mut self, _ctx: &mut Context<Self>, next_index: u64, last_term: u64) {
         let next_log_id = {
             if let Some(last_log) = self.logs.last_mut() {
@@ -1120,6 +1133,7 @@ impl RaftLogManager {
             log_actor: Some(log_actor_addr.clone()),
         });
         self.current_log_actor = Some(log_actor_addr);
+        self.catalogue_save_pending = true;
     }
 
     fn write(
@@ -1135,8 +1149,13 @@ impl RaftLogManager {
             self.switch_new_log(ctx, record.index, record.term);
             self.current_log_actor.clone().unwrap()
         };
+        let catalogue_barrier = self.take_catalogue_barrier();
         async move {
             let r = log_actor.send(RaftLogRequest::Write(record)).await??;
+            if let Some(index_manager) = catalogue_barrier {
+                //the mailbox is first-in first-out: when this answer arrives the SaveLogs sent before it has been written
+                index_manager.send(RaftIndexRequest::LoadIndexInfo).await.ok();
+            }
             Ok(r)
         }
         .into_actor(self)
@@ -1218,10 +1237,14 @@ impl RaftLogManager {
             self.switch_new_log(ctx, index, term);
             self.current_log_actor.clone().unwrap()
         };
+        let catalogue_barrier = self.take_catalogue_barrier();
         async move {
             let r = log_actor
                 .send(RaftLogRequest::WriteBatch(records, record_index))
                 .await??;
+            if let Some(index_manager) = catalogue_barrier {
+                index_manager.send(RaftIndexRequest::LoadIndexInfo).await.ok();
+            }
             Ok(r)
         }
         .into_actor(self)
